@@ -225,7 +225,7 @@ pub fn replay(_kind: &str, case: &Value) -> Result<(), String> {
 pub fn run(ctx: &Ctx) -> Outcome {
     let mut out = Outcome::new(
         "Date-times over all year classes (full i32, negative, 1-3 digit, extremes) x second 0..60 x ns; UtcDateTime and DateTime (from fields and from the instant) x offsets {0, +-k*900, (-3600,3600), full i32, +-1, +-59, +-60, +-3599, i32 extremes}. \
-         Plus an enumeration of every offset in -7200..=7200 and 2000 offsets around +-100 h and the i32 extremes. Oracle: an independent strict reader of the documented text shape. \
+         Plus an enumeration of every offset in -7200..=7200, every whole hour up to +-130 h with seven remainders, and 2000 offsets around +-100 h and the i32 extremes. Oracle: an independent strict reader of the documented text shape. \
          Non-trivial: negative offset above -1 h, seconds-bearing offset, year negative, above 9999 or below 1000 in magnitude.",
     );
     out.assumptions = vec!["the strict reader encodes the shape stated in the property: unpadded decimal year, fixed-width fields, Z iff offset 0, at least two hour digits, :SS iff offset not a whole minute".into()];
@@ -236,6 +236,13 @@ pub fn run(ctx: &Ctx) -> Outcome {
         for b in [100 * 3600i64, -100 * 3600, 1000 * 3600, -1000 * 3600, i32::MAX as i64 - 500, i32::MIN as i64 + 501, 359999, -359999] {
             for d in -500..=500i64 {
                 offs.push((b + d).clamp(i32::MIN as i64 + 1, i32::MAX as i64) as i32);
+            }
+        }
+        // every whole offset hour up to 130 h with a few remainders, both signs (two-digit hours are rendered by one path, longer ones by another)
+        for h in 0..=130i32 {
+            for r in [0i32, 1, 59, 60, 1800, 2700, 3599] {
+                offs.push(h * 3600 + r);
+                offs.push(-(h * 3600 + r));
             }
         }
         for off in offs {
